@@ -19,7 +19,7 @@ RULE = ("seeded valid pieces (1-4 single-channel tracks, pitches in range, durat
         "segments needing a non-greedy decomposition; stratum V: irregular bin counts (known findings). Non-trivial: >= 2 notes "
         "and a rest crossing a bar line or a signature change.")
 PLAN = {"quick": {"cases": 2400, "jobs": 4, "timeout": 600},
-        "thorough": {"cases": 120000, "jobs": 16, "timeout": 3000, "budget_s": 420}}
+        "thorough": {"cases": 2000000, "jobs": 16, "timeout": 3000, "budget_s": 360}}
 FLOORS = {"quick": {"c01.roundtrips_compared": 1500, "#c01.flags.": 16, "c01.notes_compared": 8000, "c01.bar_lines_compared": 4000,
                     "c01.signature_change": 500},
           "thorough": {"c01.roundtrips_compared": 80000, "#c01.flags.": 16}}
